@@ -61,6 +61,9 @@ structure St (M : Type) where
   tableLen : Nat
   stats : Stats
   killers : Array (Option M)
+  /-- ghost (not in the Go code, read by no branch): `checkRepetition` has fired at some time in the life
+  of this solver, so the table may hold a bound that rests on a repetition on some earlier path -/
+  ghostRep : Bool := false
 
 def zeroEntry {M : Type} : Entry M := { bounds := ⟨0, 0⟩, hash := 0, work := 0, pv := none }
 
@@ -179,7 +182,7 @@ def mid : Nat → St M → List (Frame S M) → S → PNs → Entry M → Except
   | fuel+1, st, stack, g, bounds, current =>
     if current.bounds.exceeded bounds then .ok (st, current, 0) else
     if checkRepetition stack then
-      .ok ({ st with stats := { st.stats with repetition := st.stats.repetition + 1 } },
+      .ok ({ st with stats := { st.stats with repetition := st.stats.repetition + 1 }, ghostRep := true },
            { current with bounds := terminalBounds G attacker g .none }, 0)
     else
       let depth := stack.length
